@@ -68,7 +68,10 @@ def spawn(prop, tier, seed, spec, runs, tmpdir, tag, extra=None):
 	if extra:
 		args.update(extra)
 	log = open(os.path.join(tmpdir, f'{tag}.log'), 'w')
-	p = subprocess.Popen([PY, WORKER_MAIN, json.dumps(args)], env=worker_env(spec), cwd=VERIF, stdout=log, stderr=subprocess.STDOUT)
+	argfile = os.path.join(tmpdir, f'{tag}.args.json')     # not argv: choice sequences can be long
+	with open(argfile, 'w') as f:
+		json.dump(args, f)
+	p = subprocess.Popen([PY, WORKER_MAIN, '@' + argfile], env=worker_env(spec), cwd=VERIF, stdout=log, stderr=subprocess.STDOUT)
 	return p, out, log
 
 
